@@ -113,6 +113,8 @@ class ErrorHandling:
                 expected['[string]'] = token_name
 
             elif isinstance(value, str):
+                # multi-word keywords are written with [\s]+ between the words: show them with one blank
+                value = value.replace('[\\s]+', ' ')
                 value = value.replace('\\b', '').replace('\\', '')
 
                 # doesn't content regexp
